@@ -59,6 +59,7 @@ def run_property(pid, tier, seed, only, spec):
     extra = spec.get('extra_builders', {})
     timeout = spec.get('timeout_ms', 15000) if tier == 'quick' else max(90000, spec.get('timeout_ms', 0) * 3)
     built = {}
+    implicit_done = {}
     for group, source, rx in spec.get('deductive', []):
         if only and not re.search(only, group):
             continue
@@ -81,6 +82,19 @@ def run_property(pid, tier, seed, only, spec):
                     chk.undecided.append(f"{rep.name}: unsupported construct(s): {sorted(rest)[:3]}")
             sel = [o for o in rep.obligations if re.search(rx, clause_of(o.name))]
             obs += sel
+            # a path that ends in an exception Python itself raises (missing attribute, wrong type, missing key ...) means the
+            # code no longer fits the pre-state the sidecar contract builds: the clauses of that path were not generated, so
+            # the group is UNDECIDED (never silently smaller, never a violation by itself)
+            implicit = [o for o in rep.obligations if o.kind == 'no-raise' and not re.search(rx, clause_of(o.name)) and
+                        str((o.extra or {}).get('exc', '')).split(':')[0] in ('AttributeError', 'TypeError', 'KeyError', 'IndexError', 'NameError', 'UnboundLocalError')]
+            if implicit:
+                key_ = (source, rep.name)
+                if key_ not in implicit_done:
+                    implicit_done[key_] = [r_ for r_ in solve.discharge(implicit, timeout_ms=8000) if r_.verdict != 'proved']
+                if implicit_done[key_]:
+                    r_ = implicit_done[key_][0]
+                    chk.undecided.append(f"{rep.name}: a path ends in {(r_.ob.extra or {}).get('exc', '')[:120]} - the contract's pre-state no longer fits the code; "
+                                         f"its clauses were not generated")
         if not obs:
             chk.undecided.append(f"{group}: zero obligations selected by /{rx}/ (vacuous)")
             continue
